@@ -36,8 +36,8 @@ GoodC(c) == c = "S_same_pl"
 Undecodable(c) == c = "S_same_foreign"
 Succ(c) == Status(c) = "Success"
 
-VARIABLES api, n, hdr, items, idpat, pc, outcome, carries, lenient
-vars == <<api, n, hdr, items, idpat, pc, outcome, carries, lenient>>
+VARIABLES api, n, hdr, items, idpat, opt, pc, outcome, carries, lenient
+vars == <<api, n, hdr, items, idpat, opt, pc, outcome, carries, lenient>>
 
 Shapes(k) == [1..k -> ItemClasses]
 Init == /\ api \in Apis
@@ -47,6 +47,8 @@ Init == /\ api \in Apis
         \* which unique batch item ids the response items echo: their own, all the first one's, none, swapped.
         \* Items are matched by position; the echoed ids never change what the caller must get.
         /\ idpat \in IF api = "Batch" /\ n = 2 /\ hdr = "match" /\ Len(items) = 2 THEN {"own", "dup", "none", "swap"} ELSE {"own"}
+        \* the continuation option the batch was sent with: it tells the server what to do, it never relaxes what the client must check
+        /\ opt \in IF api = "Batch" /\ n >= 2 /\ hdr = "match" /\ Len(items) = n /\ idpat = "own" THEN {"unset", "Continue", "Stop", "Undo"} ELSE {"unset"}
         /\ pc = "recv" /\ outcome = "none" /\ carries = FALSE /\ lenient = FALSE
 
 \* content of another operation under the requested operation code: the decoder of the requested payload
@@ -59,14 +61,14 @@ Recv == /\ pc = "recv"
         /\ \/ /\ \E i \in 1..Len(items) : Undecodable(items[i])
               /\ pc' = "done" /\ outcome' = "error" /\ UNCHANGED lenient
            \/ /\ pc' = "counts" /\ lenient' = (\E i \in 1..Len(items) : Undecodable(items[i])) /\ UNCHANGED outcome
-        /\ UNCHANGED <<api, n, hdr, items, idpat, carries>>
+        /\ UNCHANGED <<api, n, hdr, items, idpat, opt, carries>>
 
 \* header count = number of items = number of request items
 Counts == /\ pc = "counts"
           /\ IF hdr # "match" \/ Len(items) # n
              THEN pc' = "done" /\ outcome' = "error"
              ELSE pc' = "items" /\ UNCHANGED outcome
-          /\ UNCHANGED <<api, n, hdr, items, idpat, carries, lenient>>
+          /\ UNCHANGED <<api, n, hdr, items, idpat, opt, carries, lenient>>
 
 \* per item: a successful item must echo the requested operation and carry its payload
 Items == /\ pc = "items"
@@ -78,7 +80,7 @@ Items == /\ pc = "items"
                  ELSE /\ outcome' = "error"
                       /\ carries' = ~Succ(items[1])               \* a non-successful item is surfaced with its status/reason/message
          /\ pc' = "done"
-         /\ UNCHANGED <<api, n, hdr, items, idpat, lenient>>
+         /\ UNCHANGED <<api, n, hdr, items, idpat, opt, lenient>>
 
 Next == Recv \/ Counts \/ Items
 Spec == Init /\ [][Next]_vars
@@ -99,5 +101,5 @@ GoodAccepted ==
     Done /\ hdr = "match" /\ Len(items) = n /\ (\A i \in 1..n : Good(items[i])) => outcome = IF api = "Batch" THEN "items" ELSE "payload"
 Inv == OutcomeDefined /\ NoForeignSuccess /\ PayloadOnlyIfGood /\ FailureSurfaced /\ GoodAccepted
 
-History == [api |-> api, n |-> n, hdr |-> hdr, items |-> items, idpat |-> idpat, outcome |-> outcome, carries |-> carries, lenient |-> lenient]
+History == [api |-> api, n |-> n, hdr |-> hdr, items |-> items, idpat |-> idpat, opt |-> opt, outcome |-> outcome, carries |-> carries, lenient |-> lenient]
 =============================================================================
